@@ -319,3 +319,41 @@ def alpha_text(node_or_text) -> str:
 
     rename(tree, {})
     return norm(tree)
+
+
+def dispatch_cases(v, keyterm) -> dict:
+    """A value that dispatches on `keyterm == <constant>` / `keyterm in (<constants>)`: {constant: value for it}.
+    The special key None is the value when keyterm equals none of the constants."""
+    consts = []
+
+    def collect(x):
+        if isinstance(x, tuple) and x:
+            if x[0] == "cmp" and x[2] == keyterm and x[3][0] == "c":
+                if x[1] in ("==", "!=") and x[3][1] not in consts:
+                    consts.append(x[3][1])
+                elif x[1] in ("in", "not in") and isinstance(x[3][1], (tuple, list)):
+                    for k in x[3][1]:
+                        if k not in consts:
+                            consts.append(k)
+            for y in x:
+                collect(y)
+
+    collect(v)
+
+    def specialise(x, k):
+        if isinstance(x, tuple) and x:
+            if x[0] == "cmp" and x[2] == keyterm and x[3][0] == "c":
+                if x[1] == "==":
+                    return _av.C(k is not None and x[3][1] == k)
+                if x[1] == "!=":
+                    return _av.C(not (k is not None and x[3][1] == k))
+                if x[1] in ("in", "not in") and isinstance(x[3][1], (tuple, list)):
+                    r = k is not None and k in x[3][1]
+                    return _av.C(r if x[1] == "in" else not r)
+            new = tuple(specialise(y, k) for y in x)
+            return _av.renorm(new) if new != x else x
+        return x
+
+    out = {k: specialise(v, k) for k in consts}
+    out[None] = specialise(v, None)
+    return out
